@@ -33,6 +33,10 @@ def run(ctx):
             for n in (1, Bb // 8 - 1, Bb // 8, Bb // 8 + 5):
                 r = H.Rec(name); r.init(salts[n % 4]); r.preset(v); r.update(H.content(rnd, n, 0), padding=True)
                 traces.append(r.trace(dict(kind='preset', v=str(v), n=n))); ctx.mark((name, 'preset', v, n))
+    for name in H.BLAKES:
+        o = H.make(name)
+        for m in core.zero_edge_inputs(lambda x: o(x), lambda i: b'ze-%d-%d' % (ctx.seed, i), want=2 if big else 1, tries=900):
+            r = H.Rec(name); r.call(m); traces.append(r.trace(dict(kind='zero-edge digest'))); ctx.mark((name, 'ze', m))
     ctx.sample(dict(alg=traces[3]['name'], events=traces[3]['ev']))
     H.validate(ctx, traces, 'BLAKE one-shot')
     # BLAKE2
@@ -56,6 +60,8 @@ def run(ctx):
         for i, p in enumerate(pars):
             for n in ((0, 3, Bb + 9) if big else (3, Bb + 9)[i % 2:][:1]):
                 r = B2.Rec2(b); r.call(H.content(rnd, n, 0), p); t2.append(r.trace(dict(kind='params', i=i, n=n))); ctx.mark(('b2', b, 'par', i, n))
+        for m in core.zero_edge_inputs(lambda x: (blake.Blake2(512 if b else 256))(x), lambda i: b'z2-%d-%d' % (ctx.seed, i), want=2, tries=900):
+            r = B2.Rec2(b); r.call(m, B2.par(b)); t2.append(r.trace(dict(kind='zero-edge digest')))
         for o in (0, mx + 1):                                   # digest length out of range: must be rejected
             r = B2.Rec2(b); r.call(b'abc', B2.par(b, outlen=o), explicit_outlen=True); t2.append(r.trace(dict(kind='bad-outlen', o=o)))
     ctx.sample(dict(b=t2[5]['b'], scen=t2[5]['scen'], events=t2[5]['ev']))
